@@ -221,23 +221,49 @@ impl<T, N: ArrayLength> IntrusiveArrayBuilder<T, N> {
             ('R-slots', r'let mut array = GenericArray::<T, N>::uninit\(\);', 'let array = Slots::uninit();'),
             ('R-box', r'let mut array: Box<GenericArray<MaybeUninit<T>, N>> = Box::<GenericArray<MaybeUninit<T>, N>>::new_uninit\(\)\.assume_init\(\);', 'let array = box_new_uninit();'),
             ('R-guard', r'IntrusiveArrayBuilder::new\(&mut \*?array\)', 'IntrusiveArrayBuilder::new(array)'),
-            ('R-guard', r'let \(builder_iter, position\) = builder\.iter_position\(\); ', ''),
             ('R-guard', r'builder\.finish\(\);', 'let ghost b1 = builder.built(); let array = builder.finish();'),
             ('R-slots', r'IntrusiveArrayBuilder::array_assume_init\(array\)', 'array_assume_init(array)'),
             ('R-box', r'Box::from_raw\(Box::into_raw\(array\)\.cast\(\)\)', 'box_assume_init(array)'),
         ], stats)
-        ml = re.search(r'builder_iter\.enumerate\(\)\.for_each\(\|\(i, dst\)\| \{ (.*?) \}\);', body)
-        if not ml:
-            raise ex.Unsupported('%s: builder_iter.enumerate().for_each(|(i, dst)| {..}) not found (rule R-iter)' % vname)
-        inner = ml.group(1)
-        inner, k1 = re.subn(r'dst\.write\(f\(i\)\);', 'proof { assert(builder.wf()) /*OB:%s.unwind@f:C04*/; } let __v = f.call(i); builder.array.put(i, __v);' % vname, inner)
-        inner, k2 = re.subn(r'\*position \+= 1;', 'builder.position += 1;', inner)
-        if k1 != 1 or k2 != 1:
-            raise ex.Unsupported('%s: closure body is not {dst.write(f(i)); *position += 1;}' % vname)
+        # the slot iterator and the position counter, whatever they are called
+        mp = re.search(r'let \((\w+), (\w+)\) = builder\.iter_position\(\); ', body)
+        if not mp:
+            raise ex.Unsupported('%s: `let (iter, position) = builder.iter_position();` not found (rule R-guard)' % vname)
+        it, pos = mp.group(1), mp.group(2)
+        body = body[:mp.start()] + body[mp.end():]
+        stats['R-guard'] = stats.get('R-guard', 0) + 1
+        # the fill loop in any of its three spellings (rule R-iter): one slot per index, in index order
+        ml = (re.search(r'\b%s\.enumerate\(\)\.for_each\(\|\((\w+), (\w+)\)\| \{ (.*?) \}\);' % it, body)
+              or re.search(r'\bfor \((\w+), (\w+)\) in %s\.enumerate\(\) \{ (.*?) \}(?= \} | \w|$)' % it, body))
+        if ml:
+            ivar, dvar, inner = ml.group(1), ml.group(2), ml.group(3)
+        else:
+            ml = re.search(r'\bfor (\w+) in %s \{ (.*?) \}(?= \} | \w|$)' % it, body)
+            if not ml:
+                raise ex.Unsupported('%s: builder_iter.enumerate().for_each(|(i, dst)| {..}) / for (i, dst) in builder_iter.enumerate() {..} / for dst in builder_iter {..} not found (rule R-iter)' % vname)
+            ivar, dvar, inner = None, ml.group(1), ml.group(2)
+        stmts = [x.strip() for x in inner.split(';') if x.strip()]
+        out, k1, k2 = [], 0, 0
+        for st in stmts:
+            st = re.sub(r'\*%s\b' % pos, 'builder.position', st)
+            if re.search(r'\bf\(', st):
+                st = 'proof { assert(builder.wf()) /*OB:%s.unwind@f:C04*/; } ' % vname + re.sub(r'\bf\(', 'f.call(', st)
+                k1 += 1
+            m2 = re.match(r'^%s\.write\((.*)\)$' % dvar, st.split('} ')[-1]) if st.startswith('proof') else re.match(r'^%s\.write\((.*)\)$' % dvar, st)
+            if m2:
+                pre = st[:len(st) - len(st.split('} ')[-1])] if st.startswith('proof') else ''
+                st = pre + 'let __v = ' + m2.group(1) + '; builder.array.put(__i, __v)'
+                k2 += 1
+            out.append(st + ';')
+        inner = ' '.join(out)
+        if k1 != 1 or k2 != 1 or 'builder.position += 1;' not in inner:
+            raise ex.Unsupported('%s: loop body is not {[let v = f(i);] dst.write(..); *position += 1;} in some order' % vname)
+        if ivar:
+            inner = 'let %s = __i; ' % ivar + inner
         stats.update({'R-iter': 1, 'R-write': 1, 'R-foreign': 1})
         loop = ('let mut __i: usize = 0; while __i < N::usize_() invariant builder.wf(), builder.position == __i, __i <= N::n(), f.log().len() == __i, '
                 'forall|j: int| 0 <= j < __i ==> (#[trigger] f.log()[j]).0 == j && f.log()[j].1 == builder.built()[j], decreases N::n() - __i, { '
-                'let i = __i; let ghost lb = f.log(); let ghost bb = builder.built(); ' + inner +
+                'let ghost lb = f.log(); let ghost bb = builder.built(); ' + inner +
                 ' __i += 1; proof { assert forall|j: int| 0 <= j < __i implies (#[trigger] f.log()[j]).0 == j && f.log()[j].1 == builder.built()[j] by { '
                 'if j < __i - 1 { assert(f.log()[j] == lb[j]); assert(builder.built()[j] == bb[j]); } } } }')
         body = body[:ml.start()] + loop + body[ml.end():]
